@@ -6,6 +6,8 @@ R-C03-2  exactly one result per member, in order: every path through one iterati
          result; the loop walks proofs/statements in order; chunk results are appended in chunk order and returned
 R-C03-3  refusal guards: empty / mismatched inputs; every member agrees with member 0 on generators, bit length, extension
          degree (statement and len(d1)); vector generators are compared (prefix) with the largest member
+R-C03-4  batch weighting (= R-C08-1..3): the batch verdict is the conjunction of the members' verdicts only if every member's equation
+         enters the single gate under its own fresh non-zero weight
 """
 from bpsa.facts import callee_decl, callee_name
 from bpsa.normal import canon
@@ -23,7 +25,7 @@ RULE_TEXT = ('one obligation per structural fact (loop exhaustion, chunk constan
              'from loop / dominator structure or a guard term')
 
 
-def run(ctx):
+def _run(ctx):
     rep = ctx.rep
     vb = ctx.fn('RangeProof::<P>::verify_batch', 'R-C03-1')
     core = msm.verifier_core(ctx, 'R-C03-1')
@@ -325,3 +327,10 @@ def prefix_guards(ctx, rule, cons, flat=None):
         rep.check(hit is not None, rule, '%s/consistency/prefix/%s' % (rule, nm.split()[0]),
                   'the %s generators of every member are compared element-wise (prefix) with those of the selected largest member' % nm,
                   '%s generators: %s' % (nm, why), ctx.where(cons, hit['guard'].bb) if hit else ctx.where(cons))
+
+
+def run(ctx):
+    _run(ctx)
+    from . import C08
+    from .common import shared
+    shared(ctx, C08.run, 'R-C08', 'R-C03-4')
